@@ -65,14 +65,18 @@ Definition clean_labels (l : list label) : bool := forallb (fun x => clean_str (
 Definition laws1 (q : qtable) (o : lobs) : bool :=
   (o_len o =? zlen (o_range o)) &&
   Bool.eqb (o_empty o) (match o_range o with [] => true | _ => false end) &&
-  str_eqb (o_str o) (labels_string q (o_range o)).
+  str_eqb (o_str o) (labels_string q (o_range o)) &&
+  (* StableHash is a function of the abstract entry list only: xxhash64 over (name 0xff value 0xff)*,
+     whatever the build and however the 1 KiB buffer / streaming switch falls.  xxhash is an oracle:
+     the harness evaluates it on hash_input(Range) (o_sref), Coq compares. *)
+  (o_stable o =? o_sref o).
 (* laws of a well-formed one: iteration in strict name order, lookups are the map's *)
 Definition laws_wf (probes : list str) (o : lobs) : bool :=
   wf_labels (o_range o) &&
   list_eqb pair_eqb (o_gets o)
     (map (fun p => match lookup (o_range o) p with Some v => (v, true) | None => ([], false) end) probes).
 (* equality / order / byte form / hash are mutually consistent *)
-Definition nth_lobs (t : transcript) (i : nat) : lobs := nth i (t_regs t) (mkO [] 0 true [] [] 0 []).
+Definition nth_lobs (t : transcript) (i : nat) : lobs := nth i (t_regs t) (mkO [] 0 true [] [] 0 0 0 []).
 Definition idx := seq 0 K.
 Definition matrix_laws (t : transcript) : bool :=
   (length (t_cmp t) =? K * K)%nat && (length (t_eq t) =? K * K)%nat && (length (t_regs t) =? K)%nat &&
@@ -85,7 +89,9 @@ Definition matrix_laws (t : transcript) : bool :=
     Bool.eqb e (c =? 0) &&
     Bool.eqb e (labels_eqb (o_range a) (o_range b)) &&
     (if clean_labels (o_range a) && clean_labels (o_range b) then Bool.eqb e (str_eqb (o_bytes a) (o_bytes b)) else true) &&
-    (if e then o_hash a =? o_hash b else true)) idx) idx.
+    (if e then o_hash a =? o_hash b else true) &&
+    (* equal sets <-> equal stable hashes (no label may be ignored by the hash) *)
+    Bool.eqb e (o_stable a =? o_stable b)) idx) idx.
 
 (* registers whose current content comes from Builder.Labels: no empty values *)
 Definition from_builder (ops : list op) : list bool :=
@@ -111,7 +117,9 @@ Definition canon_event (e : event) : event :=
   match e with ERange l => ERange (sort_labels l) | _ => e end.
 Definition canon_t (t : transcript) : transcript :=
   mkT (t_panic t) (map canon_event (t_events t)) (t_regs t) (t_cmp t) (t_eq t).
-Definition cross_eq (a b : transcript) : bool := t_eqb_with lobs_eqb_nobytes (canon_t a) (canon_t b).
+(* across builds everything but Bytes/Hash must coincide - including StableHash *)
+Definition lobs_eqb_cross (a b : lobs) : bool := lobs_eqb_nobytes a b && (o_stable a =? o_stable b).
+Definition cross_eq (a b : transcript) : bool := t_eqb_with lobs_eqb_cross (canon_t a) (canon_t b).
 
 (* ---- the specification machine: label sets are finite maps name -> value kept as strictly
    name-sorted association lists; a Builder is a map plus the set of names with a pending addition
